@@ -724,6 +724,7 @@ def _mut_parse_float(tree):
 
 
 @PROP.obligation('C17.float-rescale', canaries=[
+    mut.replace_expr('values', 'Value.str', 'Fraction(repr(denominator))', 'Fraction(denominator)', 'the display quotient uses the binary value of the denominator'),
     mut.replace_expr('values', 'Value.from_satoshi', 'cls(value or 0, network.denominator, network)', 'cls((value or 0) * (network.denominator / denominator), denominator, network)', 'amount rescaled into the unit with a float quotient before it is stored'),
     mut.Canary('decimal text converted to a binary float before it is scaled', 'values', _mut_parse_float),
 ])
@@ -780,7 +781,26 @@ def float_rescale(ctx):
             ctx.saw('%s: %s -> %s' % (qn, norm(b)[:70], why[0] if why else 'single scaling by a denominator (bounded below half a unit)'))
             if why:
                 ctx.violate(q, '%s (`%s`): more float roundings than the 53-bit mantissa leaves room for on amounts up to the total supply' % (why[0], norm(b)[:80]), b, why[1] + ': off by one smallest unit')
+    # (4) an exact type fed the BINARY value of a decimal denominator: Fraction(1e-06) is 9.99999999999999954748e-07, not 1/1000000 -
+    # the quotient is then the same as the float quotient; Fraction(repr(d)) / Fraction(str(d)) / Decimal(str(d)) read the decimal literal
+    n_exact = 0
+    for qn, fn in sorted(m.functions.items()):
+        q = 'values:' + qn
+        for c in ast.walk(fn):
+            if not (isinstance(c, ast.Call) and norm(c.func) in exact and len(c.args) == 1):
+                continue
+            a_ = c.args[0]
+            is_den = (isinstance(a_, ast.Name) and a_.id in ('denominator', 'den_input', 'den', 'den_arg')) or (isinstance(a_, ast.Attribute) and a_.attr == 'denominator')
+            wrapped_den = isinstance(a_, ast.Call) and norm(a_.func) in ('repr', 'str') and a_.args and \
+                ((isinstance(a_.args[0], ast.Name) and a_.args[0].id in ('denominator', 'den_input', 'den', 'den_arg')) or (isinstance(a_.args[0], ast.Attribute) and a_.args[0].attr == 'denominator'))
+            if is_den or wrapped_den:
+                n_exact += 1
+                ctx.saw('%s: %s reads the denominator %s' % (qn, norm(c)[:50], 'as its decimal literal' if wrapped_den else 'as a BINARY float'))
+            if is_den:
+                ctx.violate(q, '`%s` converts the binary value of a decimal denominator (1e-06 is 9.99999999999999954748e-07 as a float): the "exact" quotient equals the float quotient' % norm(c)[:60], c,
+                            "Value.from_satoshi(2011423469732937).str('µ') prints ...29.38 instead of ...29.37, and parsing that text back is off by one smallest unit")
     ctx.floor(n_ops, 2, 'float scalings of amounts by denominators in Value')
+    ctx.floor(n_exact, 1, 'exact conversions of a denominator')
 
 
 @PROP.obligation('C17.display-mantissa')
@@ -974,3 +994,36 @@ def fee_integer(ctx):
                     ctx.require(ok, q, '`%s%s` is computed with float arithmetic and not converted to an integer (round(x, n) returns a float)' % (what, norm(v)[:70]), at if hasattr(at, 'lineno') else stmt,
                                 'calculate_fee() returns 188.0: Wallet.send(fee=None) hands it to transaction_create(fee=fee_exact), where a non-int fee skips the integer path and becomes transaction.fee')
     ctx.floor(n, 12, 'fees computed with float arithmetic')
+
+
+@PROP.obligation('C17.derived-fee-guarded', canaries=[
+    mut.replace_stmt('services.cryptoid', 'CryptoID.gettransaction', 'if t.input_total:', 't.fee = t.input_total - t.output_total', 'cryptoid: coinbase transactions get a fee of minus their outputs'),
+    mut.replace_stmt('services.chainso', 'ChainSo.gettransaction', 'if t.input_total:', 't.fee = t.input_total - t.output_total', 'chainso: coinbase transactions get a fee of minus their outputs'),
+])
+def derived_fee_guarded(ctx):
+    """Where the package derives a fee as input total minus output total outside the Transaction constructor (three provider clients and
+    Transaction.update_totals), the subtraction only happens when the input total is known (`if <x>.input_total:`): a coinbase
+    transaction - and any transaction whose input values were not reported - has input total 0, and the unguarded difference is a
+    NEGATIVE fee (-5000000000 for a 50-coin coinbase). All sites of the reference tree carry the guard; the rule is exact over them."""
+    from ..dfa import guards_of
+    n = 0
+    for modname, m in sorted(ctx.repo.modules.items()):
+        if not (modname.startswith('services.') or modname == 'transactions'):
+            continue
+        for name, fn in sorted(m.functions.items()):
+            if name.endswith('.__init__'):
+                continue
+            sites = [a for a in walk_no_nested(fn) if isinstance(a, ast.Assign) and any(isinstance(t, ast.Attribute) and t.attr == 'fee' for t in a.targets) and
+                     isinstance(a.value, ast.BinOp) and isinstance(a.value.op, ast.Sub) and 'input_total' in norm(a.value.left) and 'output_total' in norm(a.value.right)]
+            if not sites:
+                continue
+            q = '%s:%s' % (modname, name)
+            g = build_cfg(fn)
+            for a in sites:
+                n += 1
+                nodes = [nd for nd in g.nodes if nd.ast is a]
+                guarded = bool(nodes) and all(any(pol == 'T' and 'input_total' in norm(g[t].ast) for t, pol in guards_of(g, nd.id)) for nd in nodes)
+                ctx.saw('%s: `%s` guarded by a test of the input total: %s' % (q, norm(a)[:60], guarded))
+                ctx.require(guarded, q, '`%s` is computed without testing that the input total is known' % norm(a)[:70], a,
+                            'a coinbase transaction fetched through this client has fee = -(sum of its outputs): a negative number of smallest units in Transaction.fee, the cache and the wallet')
+    ctx.floor(n, 4, 'derived fees')
